@@ -83,6 +83,13 @@ class Layout(object):
         for rel in (b + '2/sib.tex', b + '2/in.tex', b + '-x/in.tex', 'other/out.tex', 'other/deep/d.tex', 'secret',
                     b + '.tex', b + '.latex', 'in.tex', 'other/noext'):
             self.write(rel, 'OUTSIDE')
+        # a sibling directory whose name differs from the input directory's only by letter case (case-sensitive file system)
+        self.cname = b.upper() if b.upper() != b else b.lower()
+        if os.path.exists(os.path.join(root, self.cname)):
+            self.cname = b + '-case'        # case-insensitive file system: an ordinary sibling instead
+        os.makedirs(os.path.join(root, self.cname, 'sub'))
+        for rel in (self.cname + '/in.tex', self.cname + '/case.tex', self.cname + '/sub/deep.tex', self.cname + '/noext'):
+            self.write(rel, 'OUTSIDE')
         # a second directory with the same relative spelling under another working directory
         os.makedirs(os.path.join(root, 'alt', b, 'sub'))
         for rel in ('alt/' + b + '/in.tex', 'alt/' + b + '/noext', 'alt/' + b + '/sub/deep.tex', 'alt/in.tex'):
@@ -109,10 +116,13 @@ class Layout(object):
         sl('..', os.path.join(self.base, 'sub', 'self'))                                    # dir symlink back to base (inside)
         sl('v1.2', os.path.join(self.base, 'dotlnk'))                                       # dot-free link -> dotted name that only exists with .tex
         sl(os.path.join(root, 'other', 'noext'), os.path.join(self.base, 'chain2.latex'))   # only with .latex -> outside
+        sl(os.path.join(root, self.cname, 'case.tex'), os.path.join(self.base, 'caselnk.tex'))   # file symlink -> case sibling
+        sl(os.path.join(root, self.cname), os.path.join(self.base, 'casedir'))                   # dir symlink -> case sibling
         self.components = ['in', 'in.tex', 'sub', 'deep', 'deep.tex', 'subsub', 'x', '..', '.', 'noext', 'both', 'l',
                            'lnk', 'lnk.tex', 'lnkdir', 'out', 'out.tex', 'lnkin', 'ext', 'ext2', 'rel', 'up', 'sib', 'chain', 'chain2',
                            'up2', 'self', 'v1.2', 'fig.1', 'a.b.c', 'dotlnk',
-                           'sib.tex', b, b + '2', b + '-x', b + '.tex', 'other', 'secret', 'backin', 'tosub', 'd', '']
+                           'sib.tex', b, b + '2', b + '-x', b + '.tex', 'other', 'secret', 'backin', 'tosub', 'd', '',
+                           self.cname, 'case', 'caselnk', 'casedir']
         self.nested_names = ['nest', 'nest.tex', 'lnkdir/back', 'lnkdir/back.tex', os.path.join(root, 'other', 'back.tex'),
                              'sub/nest2', 'sub/up/back2', 'sub/up/back2.tex', os.path.join(root, b + '2', 'back2'),
                              '../other/back', 'sub/../nest']
@@ -147,8 +157,14 @@ class Layout(object):
         out += triples
         # absolute names
         for rel in ('secret', self.bname + '2/sib', self.bname + '2/sib.tex', self.bname + '/in', self.bname + '/in.tex',
-                    'other/out', 'other/backin/in', 'other/backin/lnk', self.bname + '.tex', self.bname):
+                    'other/out', 'other/backin/in', 'other/backin/lnk', self.bname + '.tex', self.bname,
+                    self.cname + '/in', self.cname + '/case.tex', self.cname + '/sub/deep', self.cname):
             out.append(os.path.join(self.root, rel))
+        # the case sibling through every relative route
+        for rel in ('in', 'in.tex', 'case', 'case.tex', 'sub/deep', 'noext'):
+            out.append('../' + self.cname + '/' + rel)
+            out.append('sub/../../' + self.cname + '/' + rel)
+            out.append('casedir/' + rel)
         return out
 
 
@@ -160,6 +176,8 @@ def inside(rb, path):
 def classify_escape(name, lay, base):
     if os.path.isabs(name):
         return 'absolute'
+    if lay.cname in name.split('/') or 'casedir' in name.split('/') or 'caselnk' in name:
+        return 'case-variant-sibling'
     if '..' in name.split('/'):
         if (lay.bname + '2') in name or (lay.bname + '-x') in name or (lay.bname + '.tex') in name:
             return 'dotdot-prefix-sibling'
